@@ -23,6 +23,7 @@ class SimClock:
     def __init__(self, ns: int = 1_700_000_000_000_000_000):
         self.ns = int(ns)
         self.tick_per_read_ns = 0  # time that passes between two readings of the clock (0 = frozen during a call)
+        self.tai_offset_s = 37  # what CLOCK_TAI is ahead of the wall clock on a host whose kernel knows the leap seconds
         self.reads: t.List[int] = []
 
     def time_ns(self) -> int:
@@ -61,6 +62,22 @@ class _TimeShim:
     def time(self) -> float:
         return self._c.time()
 
+    def clock_gettime_ns(self, clk) -> int:
+        import time as _t
+
+        if clk == _t.CLOCK_REALTIME:
+            return self._c.time_ns()
+        if clk == getattr(_t, "CLOCK_TAI", -1):  # International Atomic Time: UTC + the leap second offset the kernel was told (37 s)
+            return self._c.time_ns() + self._c.tai_offset_s * 1_000_000_000
+        return _t.clock_gettime_ns(clk)
+
+    def clock_gettime(self, clk) -> float:
+        import time as _t
+
+        if clk in (_t.CLOCK_REALTIME, getattr(_t, "CLOCK_TAI", -1)):
+            return self.clock_gettime_ns(clk) / 1e9
+        return _t.clock_gettime(clk)
+
     def __getattr__(self, name):  # everything else (monotonic, sleep, struct_time ...) is the real module's
         import time as _t
 
@@ -82,11 +99,15 @@ class SimEntropy:
         self.scripted: t.Dict[t.Any, t.List[bytes]] = collections.defaultdict(list)  # key: n or (source, n)
         self.op = "-"
         self.frozen: t.Optional[bytes] = None  # if set every draw returns this pattern (sensitivity experiments)
+        self.fail_sources: t.Set[str] = set()  # entropy sources that raise instead of answering ("urandom", "aesgcm.generate_key")
 
     def draw(self, n: int, source: str = "urandom") -> bytes:
         from simworld import threads
 
         threads.mark("entropy")
+        if self.fail_sources and source in self.fail_sources:
+            # the entropy source itself fails (no device in a chroot, seccomp filter without getrandom): the call raises
+            raise OSError(38, "Function not implemented") if source == "urandom" else NotImplementedError(source)
         q = self.scripted.get((source, n)) or self.scripted.get(n)
         if q:
             out = q.pop(0)
@@ -212,6 +233,41 @@ class World:
         # _client, pyspnego's NTLM timestamps, ...); time.monotonic / perf_counter are left alone (the loop has its own time)
         patch(_time, "time_ns", self.clock.time_ns)
         patch(_time, "time", self.clock.time)
+        shim = _TimeShim(self.clock)
+        patch(_time, "clock_gettime_ns", shim.clock_gettime_ns)
+        patch(_time, "clock_gettime", shim.clock_gettime)
+        # datetime.now() / utcnow() / today() read the C clock directly: library modules that import datetime get a subclass bound
+        # to the simulated clock (nothing in the unchanged library uses datetime)
+        import datetime as _dt
+        import sys as _sys
+
+        clock = self.clock
+
+        class SimDateTime(_dt.datetime):
+            @classmethod
+            def now(cls, tz=None):
+                return _dt.datetime.fromtimestamp(clock.time_ns() / 1e9, tz)
+
+            @classmethod
+            def utcnow(cls):
+                return _dt.datetime.fromtimestamp(clock.time_ns() / 1e9, _dt.timezone.utc).replace(tzinfo=None)
+
+            @classmethod
+            def today(cls):
+                return cls.now()
+
+        class _DtModule:
+            datetime = SimDateTime
+
+            def __getattr__(self, name):
+                return getattr(_dt, name)
+
+        for mname, mod in list(_sys.modules.items()):
+            if mname.startswith("dpapi_ng") and mod is not None:
+                if getattr(mod, "datetime", None) is _dt:
+                    patch(mod, "datetime", _DtModule())
+                elif getattr(mod, "datetime", None) is _dt.datetime:
+                    patch(mod, "datetime", SimDateTime)
         patch(socket, "create_connection", self.connect_sync)
         # the host's own names are part of the world too (nothing in the unchanged library asks for them)
         patch(socket, "getfqdn", lambda name="": self.host_fqdn if not name else name)
